@@ -17,20 +17,10 @@ theorem splitMsh_errors (s : Str) (e : Exc) (h : splitMsh s = .error e) :
     e = .ParserError ∨ e = .InvalidEncodingChars := by
   unfold splitMsh at h
   split at h
-  · split at h
-    · cases h; exact Or.inl rfl
-    · simp only at h
-      split at h
-      · cases h; exact Or.inr rfl
-      · split at h
-        · cases h
-        · split at h
-          · cases h; exact Or.inr rfl
-          · split at h
-            · cases h
-            · cases h; exact Or.inr rfl
-        · cases h; exact Or.inr rfl
-  · cases h; exact Or.inl rfl
+  · dsimp only at h
+    repeat' split at h
+    all_goals first | (cases h; simp) | (simp at h)
+  · cases h; simp
 
 /-- **C15 (header).** For every string, `get_message_type` returns or raises `ParserError` /
     `InvalidEncodingChars`: never a crash. -/
